@@ -369,6 +369,10 @@ def _exec(ctx, case):
     # like a tree read from a file: transformed copies keep the source of the original
     src = "/data/cells/neuron.swc" if case["mseed"] % 2 else ""
     tree = G.build(spec, with_tag=False, source=src, frozen_ok=True)
+    if case["mseed"] % 5 == 2:
+        # the neuron being moved is itself a tree the library derived (sorted / re-rooted / grown
+        # by a merged node) from a used one; its twin is built afresh from its columns
+        tree, spec = G.derive(tree, spec, int(case["mseed"]))
     n = len(spec["pid"])
     s = case["scale"]
     if src:
